@@ -31,7 +31,7 @@ if git apply --check $M/patch.diff 2>/dev/null; then
   fi
   if [ -n "$dest" ] && [ -f $M/demo_test.go ]; then
     cp $M/demo_test.go $WT/$dest
-    run=$(grep -ho "\-run [A-Za-z0-9_|^$]*" $M/demo_test.go $M/meta.json | head -1)
+    run=$(grep -ho "\-run ['\"]\?[A-Za-z0-9_|^$.*()]*" $M/demo_test.go $M/meta.json | head -1 | tr -d "'\"")
     pkg=./$(dirname $dest)/
     if timeout 300 go test -vet=off -count=1 $run $pkg >$OUT/demo_with.log 2>&1; then res_demo_with=PASSES; else res_demo_with=fails; fi
     git checkout -q -- .
